@@ -287,6 +287,11 @@ func (s *Session) setStorageCallbacks() {
 			return true
 		}
 
+		if !s.IsLogged() {
+			s.RejectMessage(data)
+			return true
+		}
+
 		storageID := fix.StorageID{
 			Sender: s.LogonSettings.SenderCompID,
 			Target: s.LogonSettings.TargetCompID,
